@@ -723,7 +723,30 @@ func ReplayOnce(spec *PropertySpec, rf *ReplayFile) (int, *WorkerMsg, string) {
 	var outb, errb bytes.Buffer
 	cmd.Stdout = &outb
 	cmd.Stderr = &limitedWriter{w: &errb, n: 1 << 20}
-	err := cmd.Run()
+	if serr := cmd.Start(); serr != nil {
+		return 2, nil, serr.Error()
+	}
+	done := make(chan struct{})
+	memKilled := false
+	go func() { // memory watchdog, as for exploring workers
+		for {
+			select {
+			case <-done:
+				return
+			case <-time.After(500 * time.Millisecond):
+				if rssBytes(cmd.Process.Pid) > 6<<30 {
+					memKilled = true
+					cmd.Process.Kill()
+					return
+				}
+			}
+		}
+	}()
+	err := cmd.Wait()
+	close(done)
+	if memKilled {
+		return 2, nil, "the replay exceeded the memory cap"
+	}
 	code := 0
 	if err != nil {
 		if ee, ok := err.(*exec.ExitError); ok {
